@@ -27,6 +27,10 @@ open B.AlgoEq2NF
 #print axioms BddVariableSet_mk_cnf_eq_canon_driver_closed
 #print axioms mk_disjunctive_clause_panics
 #print axioms Bdd_mk_cnf_singleton_panics
+#print axioms tRec_panic_genRec
+#print axioms Bdd_mk_cnf_panics
+#print axioms Bdd_mk_cnf_panics_closed
+#print axioms BddVariableSet_mk_cnf_panics_driver
 #print axioms gen_eq_tBody
 #print axioms gen_eq_tOpt
 #print axioms tOpt_eq
